@@ -2,6 +2,7 @@ SPECIFICATION Spec
 CONSTANTS
   Dev = {"dedup-succs"}
   MaxCalls = 3
+  Classes = FALSE
   MaxOps = 5
 INVARIANTS SuccsLive
 VIEW View
